@@ -11,6 +11,7 @@ package openflow13
 import (
 	"encoding/binary"
 	"errors"
+	"fmt"
 	"net"
 
 	"github.com/contiv/libOpenflow/common"
@@ -99,6 +100,18 @@ const (
 )
 
 func Parse(b []byte) (message util.Message, err error) {
+	// A malformed or truncated frame must not crash the caller: decoders index
+	// the buffer by lengths read from it, so a decoding panic is reported as
+	// an error (as ofbase.Header.Decode does).
+	defer func() {
+		if r := recover(); r != nil {
+			message = nil
+			err = fmt.Errorf("malformed OpenFlow message: %v", r)
+		}
+	}()
+	if len(b) < 8 {
+		return nil, errors.New("The []byte is too short to hold an OpenFlow header.")
+	}
 	switch b[1] {
 	case Type_Hello:
 		message = new(common.Hello)
